@@ -4,6 +4,7 @@ package main
 import (
 	"context"
 	"fmt"
+	"regexp"
 	"slices"
 	"sort"
 	"strings"
@@ -191,7 +192,7 @@ func storeSnapshot(ctx context.Context, st state.CoreState, kind resource.Kind, 
 }
 
 // ops of the API alphabet
-var apiOps = []string{"create-b", "update-a", "modify-a", "modify-c(new)", "uwc-a", "get-a", "list", "watch-a", "watchkind", "copy-md"}
+var apiOps = []string{"create-b", "update-a", "modify-a", "modify-c(new)", "uwc-a", "get-a", "list", "list-label", "list-id", "watch-a", "watchkind", "copy-md"}
 
 func runSequence(x *explore.X, fl string, seq []string) int {
 	useSlice := fl != "remote"
@@ -296,8 +297,15 @@ func runSequence(x *explore.X, fl string, seq []string) int {
 			case "get-a":
 				r, _ := st.Get(ctx, ptr("a"))
 				hold(tag+"result", r)
-			case "list":
-				l, _ := st.List(ctx, kind)
+			case "list", "list-label", "list-id":
+				var lo []state.ListOption
+				switch op {
+				case "list-label":
+					lo = append(lo, state.WithLabelQuery(resource.LabelExists("k")))
+				case "list-id":
+					lo = append(lo, state.WithIDQuery(resource.IDRegexpMatch(regexp.MustCompile("^[abc]$"))))
+				}
+				l, _ := st.List(ctx, kind, lo...)
 				for j, r := range l.Items {
 					hold(fmt.Sprintf("%sitem %d", tag, j), r)
 				}
@@ -463,7 +471,7 @@ func main() {
 	explore.Main(explore.Config{
 		Property:  "C19",
 		Technique: "exhaustive enumeration of API call sequences (run to exact quiescence on the controlled scheduler) x every held object x every public mutation, with the store re-read after each mutation",
-		Rule:      "every sequence up to the length over 10 API calls, 3 flavours (inmem, runtime cache, remote); after it every held object x 18 mutations; non-trivial = distinct sequences",
+		Rule:      "every sequence up to the length over 12 API calls, 3 flavours (inmem, runtime cache, remote); after it every held object x 18 mutations; non-trivial = distinct sequences",
 		Assume:    []string{"mutations go through the public metadata/spec API (KV.Raw() map writes are not part of it)", "deterministic default schedule"},
 		Extra:     map[string]any{"explanation": "states = API sequences executed; transitions = scheduler steps; evaluations = (held object, mutation) pairs checked against a full re-read of the store"},
 	}, build)
